@@ -65,6 +65,8 @@ def cstr (f : Bytes) (o : Nat) : Option String :=
 def PROGRAM_START : Nat := Gen.PROGRAM_START_ADDR
 def DRAM_START : Nat := Gen.AREA2_START_ADDR
 def DRAM_SIZE : Nat := Gen.AREA2_SIZE
+/-- DRAM index of the load base -/
+def OFF0 : Nat := PROGRAM_START - DRAM_START
 
 /-- write one byte into the DRAM store at index i (panics when out of bounds) -/
 def pokeDram (d : Mem) (i : Nat) (v : Nat) : Option Mem :=
@@ -94,6 +96,14 @@ def relocGot (off0 addr : Nat) : Nat → Nat → Mem → Option Mem
     let d' ← writeBE32 d a ((v + PROGRAM_START) % 2 ^ 32)
     relocGot off0 addr n (i + 1) d'
 
+/-- the PT_LOAD loop: copy p_filesz bytes of each loadable segment to load base + p_vaddr -/
+def loadSegments (f : Bytes) (pht : List Ph) (d : Mem) : Option Mem :=
+  pht.foldlM (fun d ph =>
+    if ph.ty == 1 then
+      (if ph.off + ph.filesz > f.size ∨ OFF0 + ph.vaddr + ph.filesz > DRAM_SIZE then none
+       else copyBytes f ph.off (OFF0 + ph.vaddr) ph.filesz d)
+    else some d) d
+
 def splitWs (s : String) : List String :=
   (s.split (fun c => c == ' ' || c == '\t' || c == '\n' || c == '\r' || c == '\x0b' || c == '\x0c')).toList
     |>.map (·.toString) |>.filter (· ≠ "")
@@ -105,23 +115,36 @@ structure Loaded where
 
 def setEr (l : Loaded) (i v : Nat) : Loaded := { l with er := l.er ++ [(i, v % 2 ^ 32)] }
 
+/-- write a byte string at consecutive DRAM indices -/
+def pokeList (d : Mem) (i : Nat) : List Nat → Option Mem
+  | [] => some d
+  | b :: bs => do let d' ← pokeDram d i b; pokeList d' (i + 1) bs
+
+/-- one iteration of the argument loop: pointer slot at absolute `argp`, string at absolute `a` -/
+def argStep (st : Mem × Nat × Nat) (bytes : List Nat) : Option (Mem × Nat × Nat) := do
+  let (d, argp, a) := st
+  let d ← writeBE32 d (argp - DRAM_START) (a % 2 ^ 32)
+  let d ← pokeList d (a - DRAM_START) bytes
+  let d ← pokeDram d (a + bytes.length - DRAM_START) 0
+  pure (d, argp + 4, a + bytes.length + 1)
+
+def argLoop (st : Mem × Nat × Nat) : List (List Nat) → Option (Mem × Nat × Nat)
+  | [] => some st
+  | w :: ws => do let st' ← argStep st w; argLoop st' ws
+
+def align4 (a : Nat) : Nat := (a + 3) / 4 * 4
+
+def strBytes (s : String) : List Nat := s.toUTF8.toList.map (·.toNat)
+
 /-- `.stack` branch: stack pointer, TCB gap, argc/argv table and strings -/
 def stackBranch (l : Loaded) (programSize stackSize : Nat) (args : String) : Option Loaded := do
-  let a := (PROGRAM_START + programSize + stackSize + 3) / 4 * 4
+  let a := align4 (PROGRAM_START + programSize + stackSize)
   let l := setEr l 7 (a - 8)
-  let a := (a + 88 + 3) / 4 * 4
+  let a := align4 (a + 88)
   let argsList := "prog.elf" :: splitWs args
   let l := setEr l 0 argsList.length
   let l := setEr l 1 a
-  let argp := a
-  let a := a + 4 * (argsList.length + 1)
-  let step : (Mem × Nat × Nat) → String → Option (Mem × Nat × Nat) := fun (d, argp, a) arg => do
-    let d ← writeBE32 d (argp - DRAM_START) (a % 2 ^ 32)
-    let bytes := arg.toUTF8
-    let d ← (List.range bytes.size).foldlM (fun d k => pokeDram d (a + k - DRAM_START) (bytes[k]!).toNat) d
-    let d ← pokeDram d (a + bytes.size - DRAM_START) 0
-    pure (d, argp + 4, a + bytes.size + 1)
-  let (d, _, _) ← argsList.foldlM step (l.dram, argp, a)
+  let (d, _, _) ← argLoop (l.dram, a, a + 4 * (argsList.length + 1)) (argsList.map strBytes)
   pure { l with dram := d }
 
 /-- `elf::load` -/
@@ -138,13 +161,9 @@ def load (f : Bytes) (args : String) (dram0 : Mem) : Option Loaded := do
   if phoff > f.size then none
   let pht ← parseTable parsePh f phoff 32 phnum
   let l : Loaded := setEr { dram := dram0 } 2 PROGRAM_START
-  let off0 := PROGRAM_START - DRAM_START
+  let off0 := OFF0
   -- segments
-  let d ← pht.foldlM (fun d ph =>
-    if ph.ty == 1 then
-      (if ph.off + ph.filesz > f.size ∨ off0 + ph.vaddr + ph.filesz > DRAM_SIZE then none
-       else copyBytes f ph.off (off0 + ph.vaddr) ph.filesz d)
-    else some d) l.dram
+  let d ← loadSegments f pht l.dram
   let l := { l with dram := d }
   -- sections, in table order
   (sht.zip names).foldlM (fun (l : Loaded) (h, name) =>
